@@ -18,7 +18,12 @@ pub fn any_bounds<const N: usize>() -> [(u64, u64); N] {
     b
 }
 
-/// Build the real `BlockRanges` value for the given bounds through the public constructor.
+/// Build the real `BlockRanges` value for the given bounds.
+///
+/// The value is wrapped directly (accessor appended to the generated copy of block_ranges.rs):
+/// going through `from_vec(..).expect(..)` moves the 152-byte vector through a `Result`, which
+/// CBMC encodes byte-wise and which multiplies the formula size by 20 (measured).
+/// `from_vec` itself is checked separately (harness `c17_from_vec_*`).
 pub fn build<const N: usize>(b: &[(u64, u64); N]) -> BlockRanges {
     let mut v: SmallVec<[BlockRange; 2]> = SmallVec::new();
     let mut i = 0;
@@ -26,7 +31,11 @@ pub fn build<const N: usize>(b: &[(u64, u64); N]) -> BlockRanges {
         v.push(b[i].0..=b[i].1);
         i += 1;
     }
-    BlockRanges::from_vec(v).expect("bounds satisfy the invariant")
+    crate::block_ranges::verif_access::raw(v)
+}
+
+fn inner(r: &BlockRanges) -> &SmallVec<[BlockRange; 2]> {
+    crate::block_ranges::verif_access::inner(r)
 }
 
 /// Reference membership: is `h` in the set denoted by the bounds?
@@ -53,7 +62,7 @@ pub fn card<const N: usize>(b: &[(u64, u64); N]) -> u128 {
 
 /// Representation invariant of a real value, observed through `as_ref()`.
 pub fn repr_ok(r: &BlockRanges) -> bool {
-    let s: &[BlockRange] = r.as_ref();
+    let s = inner(r);
     let mut i = 0;
     let mut ok = true;
     while i < s.len() {
@@ -68,7 +77,7 @@ pub fn repr_ok(r: &BlockRanges) -> bool {
 
 /// Membership in a real value, computed from its representation (not via `contains`).
 pub fn rmem(r: &BlockRanges, h: u64) -> bool {
-    let s: &[BlockRange] = r.as_ref();
+    let s = inner(r);
     let mut i = 0;
     let mut m = false;
     while i < s.len() {
@@ -80,7 +89,7 @@ pub fn rmem(r: &BlockRanges, h: u64) -> bool {
 
 /// Cardinality of a real value from its representation.
 pub fn rcard(r: &BlockRanges) -> u128 {
-    let s: &[BlockRange] = r.as_ref();
+    let s = inner(r);
     let mut i = 0;
     let mut c = 0u128;
     while i < s.len() {
